@@ -53,7 +53,8 @@ func (f *IntegerLength) Call(s *slip.Scope, args slip.List, depth int) (result s
 	case *slip.Bignum:
 		bi := (*big.Int)(ta)
 		if bi.Sign() < 0 {
-			bi = bi.Add(bi, big.NewInt(1))
+			// Compute -(x+1) in a new big.Int, the argument must not change.
+			bi = new(big.Int).Add(bi, big.NewInt(1))
 			bi = bi.Neg(bi)
 		}
 		result = slip.Fixnum(bi.BitLen())
